@@ -25,6 +25,7 @@ type c03Env struct {
 	backend  int    // 0 local, 1 http, 2 casync protocol
 	srvSkip  bool   // server-side store does not verify (the client hop does)
 	srvComp  bool   // http: server serves compressed chunks
+	selfID   bool   // protocol: the served store labels chunks with the hash of what it holds
 	stack    int
 	ncache   int
 	sessions []*protoSession
@@ -86,13 +87,33 @@ func (e *c03Env) base() (desync.Store, error) {
 		if err != nil {
 			return nil, err
 		}
-		s, err := startProtocol(up)
+		var served desync.Store = up
+		if e.selfID {
+			served = selfIDStore{up}
+		}
+		s, err := startProtocol(served)
 		if err != nil {
 			return nil, err
 		}
 		e.sessions = append(e.sessions, s)
 		return protoStore{s}, nil
 	}
+}
+
+// selfIDStore labels what it returns with the hash of the data it actually holds (a content-addressed upstream behind
+// the protocol server): the reply then carries that id in its header, whatever was asked for.
+type selfIDStore struct{ desync.Store }
+
+func (s selfIDStore) GetChunk(id desync.ChunkID) (*desync.Chunk, error) {
+	ch, err := s.Store.GetChunk(id)
+	if err != nil {
+		return nil, err
+	}
+	b, err := ch.Data()
+	if err != nil {
+		return nil, err
+	}
+	return desync.NewChunk(b), nil
 }
 
 func (e *c03Env) newCacheDir() string {
@@ -185,6 +206,7 @@ func runC03(c *fw.Case) {
 		}
 		defer e.s3.close()
 	}
+	e.selfID = e.backend == 2 && c.ChanceAdded(1, 2, "proto.selfid")
 	e.srvSkip = c.Bool("srv.skipverify")
 	e.srvComp = c.Bool("srv.compressed")
 	e.stack = c.Draw(7, "stack")
